@@ -29,9 +29,19 @@ def key(t):
 # process history for the next generation: (dsdl_dir, roots) of another namespace set that is generated first, into a scratch output
 # directory, by the SAME interpreter (several CLI invocations through vlib/launch_nnvg.py).  Set by a check around build_bases().
 HISTORY = None
+# an earlier run into the SAME output directory: (dsdl_dir, roots, after) of the version of the namespace set that was generated there
+# before (own process, same options); `after` is called between the two runs (e.g. to date the edited definitions after that run).
+EARLIER = None
 
 
 def gen_cli(dsdl_dir, roots, out, lang, flags, cwd):
+    if EARLIER is not None:
+        rs = genrun.nnvg_all_roots(EARLIER[0], EARLIER[1], out, lang, extra=flags, cwd=cwd)
+        bad = [r for r in rs if r.returncode != 0]
+        if bad:
+            return False, "earlier run: " + bad[0].stderr[-1500:]
+        if EARLIER[2]:
+            EARLIER[2]()
     if HISTORY is None:
         rs = genrun.nnvg_all_roots(dsdl_dir, roots, out, lang, extra=flags, cwd=cwd)
         bad = [r for r in rs if r.returncode != 0]
